@@ -312,7 +312,10 @@ def main(run):
             step = len(rest) / float(max(1, room))
             rest = [rest[int(j * step)] for j in range(room)]
         p["traces"] = []
-        for j, h in enumerate(keep[: cap] + rest):
+        # beyond the exhaustive bound: seeded walks of 4-8 events (validated by MC_NavCheck like the others)
+        wr = random.Random("%d/walk17/%d" % (run.seed, progs.index(p)))
+        walks = [[wr.randrange(len(p["events"])) + 1 for _ in range(wr.randint(4, 8))] for _ in range(12 if tier == "quick" else 200)]
+        for j, h in enumerate(keep[: cap] + rest + walks):
             conf = os.path.join(p["dir"], "sdkconfig_run")
             kc.write_text(conf, p["init_text"])
             paths = []
